@@ -121,6 +121,7 @@ class SmilesToken(BigSMILESbase):
             elements.append(sub_string)
 
         atoms = []
+        folded_hydrogens = 0
         atom_to_bond = [-1]
         bond_descriptors = []
         element_counter = 0
@@ -128,7 +129,12 @@ class SmilesToken(BigSMILESbase):
             element = elements[element_counter]
             if isinstance(element, Atom):
                 atoms.append(element)
-                atom_to_bond[-1] = len(atoms) - 1
+                # A hydrogen written as '[H]' next to other atoms is folded into the atom it hangs on when the
+                # fragment is built: it has no atom index of its own, descriptors are numbered without it.
+                if element.generate_string(True) == "[H]" and total_atom_number > 1:
+                    folded_hydrogens += 1
+                else:
+                    atom_to_bond[-1] = len(atoms) - 1 - folded_hydrogens
             elif not isinstance(elements[element_counter], BondDescriptor):
                 if "$" in element or "<" in element or ">" in element:
                     if element.find("[") < 0:
